@@ -339,6 +339,25 @@ def pathsCover (w : Wiring) : Bool :=
     | Option.none => false) &&
   Role.all.all fun r => paths.any fun p => !(stepsFor p.1 r).isEmpty
 
+/-- The public class properties (`glyph.pointClass`, …) and the role whose class each must return —
+what callers use to construct objects they hand in themselves (`contour.appendPoint(contour.pointClass(…))`). -/
+def propRoles : List (CName × Ident × Role) := [
+  ("Glyph", "contourClass", .contour), ("Glyph", "pointClass", .point), ("Glyph", "componentClass", .component),
+  ("Glyph", "anchorClass", .anchor), ("Glyph", "guidelineClass", .guideline), ("Glyph", "libClass", .lib),
+  ("Glyph", "imageClass", .image), ("Contour", "pointClass", .point)]
+
+/-- every class property of the wiring is listed, exists, and in every symbolic object returns the
+registration of its role -/
+def propsOk (w : Wiring) (objs : List AObj) : Bool :=
+  (w.classes.all fun cd => cd.props.all fun pa => propRoles.any fun t => t.1 == cd.name && t.2.1 == pa.1) &&
+  (propRoles.all fun t => objs.any fun o => o.cd == t.1) &&
+  objs.all fun o => propRoles.all fun t =>
+    if o.cd = t.1 then
+      match w.classDef o.cd with
+      | some cd => aevalCls cd o (.prop t.2.1) == .paramOr t.2.2 (dfltName t.2.2)
+      | Option.none => false
+    else true
+
 /-! ## 4. Support for the examples of `Props/C15.lean` -/
 
 /-- only points (class 3) and anchors (class 8) customised -/
